@@ -29,11 +29,11 @@ def interior_points(spec, rng, per_box=3):
                 c = [rng.randint(lo[d] + 1, hi[d] - 1) if hi[d] - lo[d] >= 2 else None for d in range(3)]
                 if None in c:
                     break
-                if any(all(flo[d] <= 2 * c[d] <= fhi[d] for d in range(3)) for flo, fhi in fine):
+                if any(all(flo[d] <= int(spec.get("ratio", 2)) * c[d] <= fhi[d] for d in range(3)) for flo, fhi in fine):
                     continue
                 cand.append(c)
             for c in cand[:per_box]:
-                pt = [spec["geo_low"][d] + (c[d] + 0.5) * spec["dx0"][d] / 2 ** lv for d in range(3)]
+                pt = [spec["geo_low"][d] + (c[d] + 0.5) * spec["dx0"][d] / int(spec.get("ratio", 2)) ** lv for d in range(3)]
                 out.append((lv, bid, c, pt))
     return out
 
@@ -41,7 +41,7 @@ def interior_points(spec, rng, per_box=3):
 def model_levels(spec):
     levels = []
     for lv, boxes in enumerate(spec["levels"]):
-        dx = [Fr(x) / 2 ** lv for x in spec["dx0"]]
+        dx = [Fr(x) / int(spec.get("ratio", 2)) ** lv for x in spec["dx0"]]
         levels.append({"dx": [J(x) for x in dx],
                        "boxes": [[[J(Fr(spec["geo_low"][d]) + lo[d] * dx[d]), J(Fr(spec["geo_low"][d]) + (hi[d] + 1) * dx[d])] for d in range(3)]
                                  for lo, hi in boxes],
@@ -130,7 +130,7 @@ def run_spec(ctx, rep, spec, model, only=None):
         # the centre is only representable up to the rounding of its coordinates: an error of a few ulp(p) is an error of
         # ulp(p)/dx cells in the index the interpolation is asked for, times the variation of the data between cells (< 2**9)
         # tolerance relative to the magnitude of each field (its values are small integers times the field's scale)
-        rel = 1e-9 + 8 * 16 * 2.2e-16 * max(abs(pt[d]) / (spec["dx0"][d] / 2 ** lv) for d in range(3))
+        rel = 1e-9 + 8 * 16 * 2.2e-16 * max(abs(pt[d]) / (spec["dx0"][d] / int(spec.get("ratio", 2)) ** lv) for d in range(3))
         fs = spec["data"].get("field_scale")
         scale = [64.0 * (fs[k % len(fs)] if fs else 1.0) for k in idx]
         if len(got) != len(want) or any(abs(a - b) > rel * s for a, b, s in zip(got, want, scale)):
@@ -175,6 +175,12 @@ def run(ctx, rep, model=True):
             spec["data"]["field_scale"] = [1e5, 1e-12, 3e-7]        # e.g. pressure next to radical mass fractions
             rep.count("fields-of-very-different-magnitudes")
         if i % 4 == 2: spec["path_form"] = "symlink"
+        if i % 6 == 2 and len(spec["levels"]) == 3:
+            # refinement ratio 4 (the middle level of a properly nested three-level mesh dropped)
+            spec = plotgen.to_ratio4(spec); rep.count("refinement-ratio-4")
+        if i % 6 == 5:
+            # twelve fields, selections of fields far apart in the record
+            spec["fields"] = [f"f{k:02d}" for k in range(12)]; rep.count("twelve-fields")
         if i % 3 == 1:
             for l in spec["levels"]:
                 ctx.rng.shuffle(l)
